@@ -23,7 +23,7 @@ theorem rinv_arrive {cfg : Cfg} {ws : WLog} {x : Reader} (h : RInv cfg ws x) (k 
 theorem rinv_ctl {cfg : Cfg} {ws : WLog} {x : Reader} (h : RInv cfg ws x) (c : Ctl) :
     RInv cfg ws (rctl cfg x c) := by
   cases c with
-  | setup m => exact rinv_setup h m
+  | setup m req => exact rinv_setup h m req
   | play => exact rinv_play h
   | pclose => exact rinv_pclose h
   | pnil => exact rinv_pnil h
